@@ -146,6 +146,8 @@ class Visitor(Generic[Result]):
         raise Unsupported(tp)
 
     def visit(self, tp: AnyType) -> Result:
+        if tp is None:  # PEP 585 generics keep None as is, e.g. get_args(list[None])
+            tp = type(None)
         origin, args = get_origin_or_type(tp), get_args(tp)
         if args:
             if is_annotated(tp):
